@@ -468,11 +468,12 @@ class AbstractExcelInPython(ABC):
 
     def _left(self, text, num_chars):
         if num_chars is None:
-            return text[0]
+            return text[0:1]
         if num_chars < 0:
             return '#ERROR!'
         if not text:
-            return self.EmptyCell()
+            # an empty result is an empty text, not a blank cell
+            return ''
         if len(text) < num_chars:
             return text
         return text[0:num_chars]
@@ -483,7 +484,8 @@ class AbstractExcelInPython(ABC):
         if num_chars < 0:
             return '#VALUE!'
         if start_num > len(text):
-            return self.EmptyCell()
+            # an empty result is an empty text, not a blank cell
+            return ''
 
         return text[start_num - 1:start_num + num_chars - 1]
 
@@ -628,11 +630,12 @@ class AbstractExcelInPython(ABC):
 
     def _right(self, text, num_chars):
         if num_chars is None:
-            return text[len(text) - 1]
+            return text[len(text) - 1:]
         if num_chars < 0:
             return '#ERROR!'
         if not text:
-            return self.EmptyCell()
+            # an empty result is an empty text, not a blank cell
+            return ''
         if len(text) < num_chars:
             return text
         return text[len(text) - num_chars:]
